@@ -1,6 +1,6 @@
 (* C01: generated serializers emit exactly the DSDL wire representation.
    Statements only; proofs in Spec/WireThm*.v (specification level) and Codec/Refine.v, Codec/RefineSer*.v (code-shaped walker). *)
-From Verif Require Import Wire WireThm WireThmRt WireThmValid Walker Refine RefineSerBits PrimsOn RefineSerBase RefineSer Gen_C01 GenC01Thm InstancesC InstancesCpp InstancesPy InstancesTyped BulkArrays BulkArraysTie TargetPre TargetPreThm PyWalker PyWalkerThm PyWalkerPre InstancesPySer InstancesOpt WalkerX RefineSerX InstancesX WireThmCast CppWalker CppWalkerThm CppWalkerInst PrimsCur F16SatCode.
+From Verif Require Import Wire WireThm WireThmRt WireThmValid Walker Refine RefineSerBits PrimsOn RefineSerBase RefineSer Gen_C01 GenC01Thm InstancesC InstancesCpp InstancesPy InstancesTyped BulkArrays BulkArraysTie TargetPre TargetPreThm PyWalker PyWalkerThm PyWalkerPre InstancesPySer InstancesOpt WalkerX RefineSerX InstancesX WireThmCast CppWalker CppWalkerThm CppWalkerInst PrimsCur F16SatCode PyAccept InstancesCW.
 Local Open Scope nat_scope.
 
 (* every encoding of every well-formed type lies within the exported bounds; composites are whole bytes *)
@@ -232,7 +232,7 @@ Proof. exact py_walk_ser_refines_tie_free. Qed.
 Print Assumptions c01_py_walk_ser_refines_tie_free.
 
 Theorem c01_py_walk_ser_refines_from_laws : forall Q u fs ext v cap, add_law Q (8 * cap) -> hdr_law Q (8 * cap) ->
-  wf_ty (TComp u fs ext) = true -> bmax (TComp u fs ext) <= 8 * cap ->
+  bulk_law Q (8 * cap) -> wf_ty (TComp u fs ext) = true -> bmax (TComp u fs ext) <= 8 * cap ->
   py_walk_ser Q py_enc_prim (TComp u fs ext) v cap = ser_spec (TComp u fs ext) (py_pre (TComp u fs ext) v) cap.
 Proof. exact py_walk_ser_pre_refines_on. Qed.
 Print Assumptions c01_py_walk_ser_refines_from_laws.
@@ -367,6 +367,59 @@ Print Assumptions c01_f16_sat_code_is_sat16.
 Theorem c01_float_arg_is_sat_code : forall x, float_arg 16 true x = sat_code (x mod 2 ^ 32)%N.
 Proof. exact float_arg_is_sat_code. Qed.
 Print Assumptions c01_float_arg_is_sat_code.
+
+(* AUDIT 2 (Python coverage).  The routine now takes the array paths the templates emit (serialization.j2 l.70-110): ONE
+   add_(un)aligned_array_of_bits call for bool arrays, ONE add_(un)aligned_array_of_standard_bit_length_primitives call for
+   primitive elements of standard bit length (the NumPy array's memory image), the element loop otherwise (`PyWalker.pw_array`);
+   `c01_py_walk_ser_refines` above is about that routine.  The shipped bulk adders satisfy the law it needs: *)
+Theorem c01_py_bulk_law : forall L, L mod 8 = 0 -> bulk_law py_pyprims L.
+Proof. exact py_bulk_law. Qed.
+Print Assumptions c01_py_bulk_law.
+
+(* what the generated classes ACCEPT (`PyAccept.py_accepts`; the integer ranges are literally C18's model of the setters,
+   `c01_py_in_range_is_c18`): on accepted values the saturation code of the serialization templates is dead - the cast mode does not
+   influence the Python bytes - and an accepted, tie-free object is serialized successfully to the specification's bytes.
+   `err rejected` of the harness is the complement of `py_accepts`. *)
+Theorem c01_py_saturation_dead : forall p v, py_in_range p v = true -> py_enc_prim p v = py_enc_prim (unsat p) v.
+Proof. exact py_saturation_dead. Qed.
+Print Assumptions c01_py_saturation_dead.
+
+Theorem c01_py_accepted_serializes : forall Q u fs ext v cap, add_law Q (8 * cap) -> hdr_law Q (8 * cap) -> bulk_law Q (8 * cap) ->
+  wf_ty (TComp u fs ext) = true -> bmax (TComp u fs ext) <= 8 * cap ->
+  py_accepts (TComp u fs ext) v = true -> no_f16_tie (TComp u fs ext) v = true ->
+  exists bits, py_walk_ser Q py_enc_prim (TComp u fs ext) v cap = Ok bits /\ enc_body (TComp u fs ext) v = Ok bits.
+Proof. exact py_accepted_serializes. Qed.
+Print Assumptions c01_py_accepted_serializes.
+
+Theorem c01_py_in_range_is_c18 : forall w s z, 1 <= w ->
+  py_in_range (PU w s) (VInt z) = PyObj.int_in_range (PyObj.KU (Z.of_nat w)) z /\
+  py_in_range (PS w s) (VInt z) = PyObj.int_in_range (PyObj.KS (Z.of_nat w)) z.
+Proof. exact py_in_range_is_c18. Qed.
+Print Assumptions c01_py_in_range_is_c18.
+
+Example c01_py_bulk_paths_run :
+  let t := TComp false [TFix (TPrim PBool) 5; TVar (TPrim (PU 16 true)) 3; TFix (TPrim (PS 13 true)) 2] None in
+  let v := VStruct [VArr [VBool true; VBool false; VBool true; VBool true; VBool false]; VArr [VInt 258; VInt 772];
+                    VArr [VInt (-1); VInt 7]] in
+  py_walk_ser py_pyprims py_enc_prim t v 12 = enc_body t v /\
+  py_array_kind (TPrim PBool) = PABits /\ py_array_kind (TPrim (PU 16 true)) = PAStd (PU 16 true) /\
+  py_array_kind (TPrim (PS 13 true)) = PALoop.
+Proof. vm_compute. repeat split; reflexivity. Qed.
+
+(* AUDIT 2 (size_t width).  The C instance for EVERY width M >= 2^16 of size_t (Codec/InstancesCW.v over b-c14's width-parametric
+   support header Prims/CPrimsW.v, current nunavutSetUxx text), hence for the 32-bit MCUs; `c_prims` above is M = 2^64. *)
+Theorem c01_c_walk_ser_refines_W : forall M, (65536 <= M)%N -> forall (little : bool) u fs ext v buf cap,
+  wf_ty (TComp u fs ext) = true -> length buf = 8 * cap -> (N.of_nat (8 * cap) < M)%N ->
+  storage_ok (TComp u fs ext) v = true ->
+  walk_ser (c_primsW M little) (TComp u fs ext) v buf cap = ser_spec (TComp u fs ext) v cap.
+Proof. exact c_walk_ser_refines_W. Qed.
+Print Assumptions c01_c_walk_ser_refines_W.
+
+Theorem c01_c_walk_ser_refines_32 : forall little u fs ext v buf cap,
+  wf_ty (TComp u fs ext) = true -> length buf = 8 * cap -> (N.of_nat (8 * cap) < 2 ^ 32)%N -> storage_ok (TComp u fs ext) v = true ->
+  walk_ser (c_primsW (2 ^ 32) little) (TComp u fs ext) v buf cap = ser_spec (TComp u fs ext) v cap.
+Proof. exact c_walk_ser_refines_32. Qed.
+Print Assumptions c01_c_walk_ser_refines_32.
 
 (* (F) closed forms of what round-tripping does to a primitive (so that c01_encoding_decodes_to_cast is not circular at the leaves):
        saturated = clamp, truncated unsigned = mod 2^w, truncated signed = the wrapped representative, floats = pattern / f16
@@ -539,3 +592,35 @@ Theorem c01_decl_templates_match_reviewed :
   Gen_CodecTpl.gen_py_decl_base = TplTieData.walker_py_decl_base.
 Proof. exact TplTieDecl.decl_templates_match_reviewed. Qed.
 Print Assumptions c01_decl_templates_match_reviewed.
+
+Theorem c01_decl_base_templates_match_reviewed :
+  Gen_CodecTpl.gen_c_decl_base = TplTieData.walker_c_decl_base /\ Gen_CodecTpl.gen_cpp_decl_base = TplTieData.walker_cpp_decl_base.
+Proof. exact TplTieDecl.decl_base_templates_match_reviewed. Qed.
+Print Assumptions c01_decl_base_templates_match_reviewed.
+
+(* ---- round 7: the rule table fails closed; structural plans are executable; C++ derived tie ---- *)
+From Verif Require TplSemCpp.
+(* the serialization plans of the structural nodes, EXECUTED over the walker state, are the walker's arms *)
+Theorem c01_ws_var_is_exec : forall P e cap l buf off,
+  ws_body P (TVar e cap) (VArr l) buf off = TplSem.exec_ser_node P TplSem.walker_ser_varr (TplSem.cx_arr P cap e l) buf 0 off.
+Proof. exact TplSem.ws_var_is_exec. Qed.
+Print Assumptions c01_ws_var_is_exec.
+Theorem c01_ws_field_delimited_is_exec : forall P u fs x v buf off,
+  ws_field P (ws_body P) (TComp u fs (Some x)) v buf off =
+  TplSem.exec_ser_node P (TplSem.walker_ser_field true) (TplSem.cx_field P (TComp u fs (Some x)) v) buf 0 off.
+Proof. exact TplSem.ws_field_delimited_is_exec. Qed.
+Print Assumptions c01_ws_field_delimited_is_exec.
+Theorem c01_ws_union_is_exec : forall P fs ext k x buf off, k < length fs ->
+  ws_body P (TComp true fs ext) (VUnion k x) buf off =
+  TplSem.exec_ser_node P [TplSem.WTag; TplSem.WTagCase; TplSem.WAny; TplSem.WBadTag; TplSem.WPad] (TplSem.cx_union P fs k x) buf 0 off.
+Proof. exact TplSem.ws_union_is_exec. Qed.
+Print Assumptions c01_ws_union_is_exec.
+(* C++: regenerated serialization macro trees = CppWalker's plans, every node kind; rule table closed *)
+Theorem c01_cpp_ser_templates_are_walker_plans : TplSemCpp.cpp_ser_templates_are_walker_plans_statement.
+Proof. exact TplSemCpp.cpp_ser_templates_are_walker_plans. Qed.
+Print Assumptions c01_cpp_ser_templates_are_walker_plans.
+Theorem c01_cw_prim_is_plan_uint : forall Q w sat z buf base cap off little, w <= 64 ->
+  CppWalker.cw_prim Q (PU w sat) (VInt z) buf base cap off =
+  TplSemCpp.exec_cpp_prim Q (TplSemCpp.plan_cpp_ser_int (TplSem.facts_int true sat w off little)) w (TplSem.int_image true w z) false buf base cap off off.
+Proof. exact TplSemCpp.cw_prim_is_plan_uint. Qed.
+Print Assumptions c01_cw_prim_is_plan_uint.
